@@ -65,6 +65,9 @@ func (cs *dcase) dnNested(outer *rux.Context, n int, pos string) {
 	cs.dn.outer, cs.dn.used = outer, true
 	cs.curCtx, cs.actions = nil, 1 // actions = 1: a dump in the nested request is not taken for the first one of the outer
 	cs.curReq = httptest.NewRequest("GET", url, nil)
+	if cs.curReq.URL.RawQuery == "" {
+		cs.curReq.URL.RawQuery = "page=1&token=abc"
+	}
 	cs.curRec = &dispRecWriter{cs: cs, alt: 90 + n%10, hdr: http.Header{}}
 	cs.tr("N" + pos + ".in")
 	cs.router.ServeHTTP(cs.curRec, cs.curReq) // a panic that escapes it is a panic of the outer handler
